@@ -70,8 +70,8 @@ package podeni
 //@ pure func phaseStep(o v1beta1.Phase, n v1beta1.Phase) bool = n == "Deleting" || (o == "" && n == "Bind") || (o == "Binding" && n == "Bind") || (o == "Bind" && n == "Detaching") || (o == "Detaching" && n == "Unbind") || (o == "Unbind" && n == "Binding")
 
 //@ # status writes of the PodENI controller are legal steps
-//@ guard call SubResourceWriter.Update in podENICreate: phaseStep(old(podENI.Status.Phase), podENICopy.Status.Phase)
-//@ guard call SubResourceWriter.Update in detach: podENICopy.Status.Phase == "Unbind"
+//@ guard call SubResourceWriter.Update in podENICreate: isptr(arg1, v1beta1.PodENI) && phaseStep(old(podENI.Status.Phase), asptr(arg1, v1beta1.PodENI).Status.Phase)
+//@ guard call SubResourceWriter.Update in detach: isptr(arg1, v1beta1.PodENI) && asptr(arg1, v1beta1.PodENI).Status.Phase == "Unbind"
 
 //@ # detach (cloud detach of every interface of the record) is only entered for a record in phase Detaching
 //@ func ReconcilePodENI.detach
